@@ -197,138 +197,60 @@ func signExtend(value int64, bits int) int64 {
 	return value
 }
 
-// worker for findBit, not intended to be called directly
-func findBitInByte(b byte, searchBit bool, testBit, stopBit uint8) int {
-	if (searchBit && b > 0) || (!searchBit && b < 0xFF) {
-		// found a byte that has the search bit
-		// this loop is guaranteed to reach a match
-		bitOffset := 0
-		for {
-			set := (b & testBit) > 0
-			if set == searchBit {
-				return bitOffset
-			}
-			testBit >>= 1
-			bitOffset++
-		}
-	}
-	return -1
-}
-
 // searches a byte array for a 1 (searchBit is true) or 0 (searchBit is false),
-// in Big Endian bit order; specify all=true if startBit and endBit are the
-// full range
+// in Big Endian bit order. startIndex and endIndex count units of width bits
+// (8 = bytes, 1 = bits), may be negative (from the end) and are inclusive;
+// noEnd tells that the caller gave no explicit end, in which case a search
+// for 0 in a string of all ones answers the position just past the range,
+// as Redis does.
 func findBit(bytes []byte, startIndex, endIndex, width int, searchBit, noEnd bool) int {
-	bits := len(bytes) * 8
-	end := bits - 1
+	total := len(bytes) * 8 / width
 
 	// indexes beyond the string in either direction behave like the nearest
-	// boundary; clamp them first so that index*width cannot overflow
-	if startIndex > bits {
-		startIndex = bits
-	} else if startIndex < -bits {
-		startIndex = -bits
+	// boundary; clamp them first so that nothing below can overflow
+	if startIndex > total {
+		startIndex = total
+	} else if startIndex < -total {
+		startIndex = -total
 	}
-	if endIndex > bits {
-		endIndex = bits
-	} else if endIndex < -bits {
-		endIndex = -bits
+	if endIndex > total {
+		endIndex = total
+	} else if endIndex < -total {
+		endIndex = -total
 	}
 
-	// convert to bits and determine negative offsets
-	var startBit, endBit int
+	// same order of adjustments as Redis' bitposCommand
 	if startIndex < 0 {
-		startBit = bits + (startIndex * width)
-	} else {
-		startBit = startIndex * width
+		startIndex += total
 	}
 	if endIndex < 0 {
-		endBit = bits + (endIndex * width)
-	} else {
-		endBit = endIndex * width
+		endIndex += total
 	}
-
-	// enforce boundaries
-	if startBit < 0 {
-		startBit = 0
-	} else if startBit > end {
+	if startIndex < 0 {
+		startIndex = 0
+	}
+	if endIndex < 0 {
+		endIndex = 0
+	}
+	if endIndex >= total {
+		endIndex = total - 1
+	}
+	if startIndex > endIndex {
 		return -1
 	}
-	if endBit < startBit {
-		return -1
-	} else if endBit > end {
-		endBit = end
-	}
 
-	// initialize indexes and positions
-	startByte := startBit / 8
-	endByte := endBit / 8
-	index := startByte
-	startOffset := 7 - (startBit % 8)
-	endOffset := 7 - (endBit % 8)
-	lastBit := uint8(1) << uint8(endOffset)
-
-	// special handling of a partial start byte
-	var b uint8
-	if startOffset != 7 {
-		firstBit := uint8(1) << startOffset
-		mask := firstBit | (firstBit - 1)
-		b = bytes[index]
-		b &= mask
-		if !searchBit {
-			b |= ^mask
-		}
-
-		subOffset := 0
-		if startByte == endByte {
-			mask = lastBit - 1
-			b &= ^mask
-			if !searchBit {
-				b |= mask
-			}
-			subOffset = findBitInByte(b, searchBit, firstBit, lastBit)
-		} else {
-			subOffset = findBitInByte(b, searchBit, firstBit, 0x01)
-		}
-		if subOffset >= 0 {
-			return startBit + subOffset
-		}
-
-		// advance and align starts to the first full byte
-		index++
-		startByte++
-		startBit = ((startBit + 7) / 8) * 8
-	}
-
-	// special decrement for a partial last byte
-	fullEnd := endByte
-	if lastBit != 0x01 {
-		fullEnd--
-	}
-
-	// search full bytes
-	for index <= fullEnd {
-		b = bytes[index]
-		subOffset := findBitInByte(b, searchBit, 0x80, 0x01)
-		if subOffset >= 0 {
-			return startBit + subOffset + ((index - startByte) * 8)
-		}
-		index++
-	}
-
-	// search the last partial byte
-	if index == endByte {
-		b = bytes[index]
-		subOffset := findBitInByte(b, searchBit, 0x80, lastBit)
-		if subOffset >= 0 {
-			return startBit + subOffset + ((index - startByte) * 8)
+	firstBit := startIndex * width
+	lastBit := endIndex*width + width - 1
+	for pos := firstBit; pos <= lastBit; pos++ {
+		set := bytes[pos/8]&(0x80>>(pos%8)) != 0
+		if set == searchBit {
+			return pos
 		}
 	}
 
 	// not found
 	if !searchBit && noEnd {
-		return bits
-	} else {
-		return -1
+		return lastBit + 1
 	}
+	return -1
 }
